@@ -64,13 +64,13 @@ def harness(ctx, N, mode, shape):
     mode = ACK if mode == "ack" else UNACK
     disposition = bool(ctx.choice("disposition", 2))
     imm = bool(ctx.choice("imm", 2)) if mode == ACK else True
-    dst_name = "/dst" if shape == "dir" else RESOLVED
+    dst_name = "/dst" if shape in ("dir", "dir_existing") else RESOLVED
     sc = DstScenario(ctx, w, mode=mode, cktype=ChecksumType.CRC_32, closure=False, dst_name=dst_name,
                      rig_kwargs={"immediate_nak": imm, "disposition": disposition})
     fs = sc.rig.fs
-    if shape == "dir":
+    if shape in ("dir", "dir_existing"):
         fs.add_dir("/dst")
-    elif shape == "existing":
+    if shape in ("existing", "dir_existing"):
         fs.add_plain_file(RESOLVED, ctx.int("old_len", 0, 64))
     x = ctx.int("x", 0, hdst.OMAX + hdst.LMAX)
     m = Model()
@@ -133,7 +133,7 @@ def plan(tier):
     n = 4 if tier == "quick" else 5
     specs = []
     for mode in ("ack", "unack"):
-        for shape in ("file", "dir", "existing"):
+        for shape in ("file", "dir", "existing", "dir_existing"):
             nn = n if shape == "file" else n - 1
             specs.append(Spec(f"dest-write-model/{mode}/{shape}/N={nn}", "vf.harness.c05:harness",
                               {"N": nn, "mode": mode, "shape": shape}, twin_share=0.05,
@@ -145,7 +145,7 @@ BOUNDS = {
     "quick": "every sequence of N=4 events (N=3 for directory / pre-existing destination) over {Metadata, File Data (offset<=2^20, length<=4000, arbitrary overlap/duplication/beyond EOF), EOF, EOF(cancel), tick, cancel request, ACK(Finished)}; both modes, immediate/deferred NAK, disposition-on-cancellation on/off; a second transaction on the same handler is reached when the first one completes inside the sequence",
     "thorough": "N=5 (N=4 for directory / pre-existing destination)",
 }
-OUTSIDE = "sequences longer than N; path strings other than the three shapes (plain file, existing directory, pre-existing file); filestore rejections (C14)"
+OUTSIDE = "sequences longer than N; path strings other than the four shapes (plain file, existing directory, pre-existing file, directory already containing the file); filestore rejections (C14)"
 FUNCTIONS = ["DestHandler.state_machine", "_handle_metadata_packet", "_init_vfs_handling", "_handle_fd_pdu", "_lost_segment_handling",
              "_handle_fd_without_previous_metadata", "_notice_of_completion", "cancel_request"]
 EXPLANATION = ("Acceptance of a PDU is read off the Metadata-Recv / File-Segment-Recv indications; the destination content is "
